@@ -146,7 +146,8 @@ class Check:
             try:
                 # KF-60 (open, dependency): pyppmd's C decoder is not memory-safe on corrupt streams; a death while a PPMd-coded
                 # archive is being processed is marked, every other death stays an unqualified violation
-                if "ppmd" in json.dumps(case, default=repr).lower():
+                text = json.dumps(case, default=repr).lower()
+                if "ppmd" in text or '"id": 54' in text or "030401" in text:  # by name, py7zr filter id 0x36, or 7z method id
                     sig["ppmd_stream"] = True
             except Exception:
                 pass
